@@ -57,7 +57,7 @@ def itMapNext : String := "var;asg<Next>;if{ret};ret<cb>"
 def itRunsNext : String := "if{for{asg<Next>;if{brk}};asg};asg<Peek>;if{ret};asg;ret"
 
 /-- `iterator.runsInnerIterator.Next` -/
-def itRunsInnerNext : String := "var;if{ret};asg<Peek>;if{asg;ret};asg;ret<Next>"
+def itRunsInnerNext : String := "var;if{ret};asg<Peek>;if<cb>{asg;ret};asg;ret<Next>"
 
 /-- `iterator.whileIterator.Next` -/
 def itWhileNext : String := "var;if{ret};asg<Next>;if{ret};if<cb>{asg;ret};ret"
@@ -147,7 +147,7 @@ def stRunsNext : String := "if{for{asg<Next>;if{brk}else if{ret}};call<Close>;as
 def stRunsClose : String := "call<Close>"
 
 /-- `stream.runsInnerStream.Next` -/
-def stRunsInnerNext : String := "var;if{ret};asg<Peek>;if{ret}else if{ret}else if{ret};asg;ret<Next>"
+def stRunsInnerNext : String := "var;if{ret};asg<Peek>;if{ret}else if{ret}else if<cb>{ret};asg;ret<Next>"
 
 /-- `stream.runsInnerStream.Close` -/
 def stRunsInnerClose : String := "asg"
